@@ -62,6 +62,15 @@ def run_sampler(cfg, seed, target, lr=None):
                                                      fragment_masses=dict(cfg["masses"]) if cfg.get("masses") else None,
                                                      all_atom=cfg["all_atom"], seed=seed)
             masses = dict(s.fragment_masses)
+            # every molecule a sampler returns is a sample: in a third of the runs the observed molecule is the SECOND
+            # one drawn from the same sampler object (the first is discarded; a dead end there is of no interest)
+            if seed % 3 == 2:
+                try:
+                    s.sample(target, start_fragment=cfg.get("start_fragment"))
+                except Exception:
+                    pass
+                if lr is not None:
+                    del lr.log[:]
             mol = s.sample(target, start_fragment=cfg.get("start_fragment"))
     except Exception as exc:
         return {"outcome": project.outcome_of(exc), "msg": str(exc)[:120], "log": list(lr.log) if lr is not None else None,
